@@ -70,6 +70,8 @@ func (g *Grammar) goFieldType(prefix string, f Field) string {
 		return "gram.TextStr"
 	case FParsR:
 		return "*gram.PTokR"
+	case FParsN:
+		return "*gram.PNest"
 	case FCust:
 		return "gram.PI"
 	case FCusts:
